@@ -126,14 +126,17 @@ class udp(packet_base):
 
     def hdr(self, payload):
         self.len = len(payload) + udp.MIN_LEN
-        self.csum = self.checksum()
+        self.csum = self.checksum(payload=payload)
         return struct.pack('!HHHH', self.srcport, self.dstport, self.len, self.csum)
 
-    def checksum(self, unparsed=False):
+    def checksum(self, unparsed=False, payload=None):
         """
         Calculates the checksum.
         If unparsed, calculates it on the raw, unparsed data.  This is
         useful for validating that it is correct on an incoming packet.
+        If payload is given, it is the already packed payload (hdr() has it;
+        packing the payload again here made pack() of UDP-in-UDP tunnels
+        take twice as long for every level of nesting).
         """
 
         ip_ver = None
@@ -150,7 +153,9 @@ class udp(packet_base):
             payload_len = len(self.raw)
             payload = self.raw
         else:
-            if isinstance(self.next, packet_base):
+            if payload is not None:
+                pass
+            elif isinstance(self.next, packet_base):
                 payload = self.next.pack()
             elif self.next is None:
                 payload = bytes()
